@@ -7,7 +7,7 @@
 (* rewriter and prints one verdict line per (record, property).            *)
 (* The post-condition only states that every record was consumed.          *)
 (***************************************************************************)
-EXTENDS Sites, Hygiene, Json, IOUtils
+EXTENDS Sites, Hygiene, LiteralsObs, Json, IOUtils
 
 Recs == ndJsonDeserialize(IOEnv.TRACE)
 
@@ -141,9 +141,16 @@ JudgeTotal(r) ==
          ELSE Verdict(r.rid, "C13", "reject", "error without diagnostic")
   ELSE Verdict(r.rid, "C13", "reject", <<r.outcome, r.error>>)
 
+(* C14: the literal report (independent of whether the file was modified) *)
+JudgeLiterals(r) ==
+  \E rin \in {TreeOf(r.in)} :
+  \E why \in {LiteralsWhy(r, rin)} :
+    IF why # "" THEN Verdict(r.rid, "C14", "reject", why)
+    ELSE Verdict(r.rid, "C14", IF r.cfg.literals /\ Len(r.literal_locs) > 0 THEN "ok" ELSE "ok0", Len(r.literal_locs))
+
 Judge(r) ==
   /\ JudgeTotal(r)
-  /\ IF r.outcome = "ok" THEN JudgeOk(r) ELSE TRUE
+  /\ IF r.outcome = "ok" THEN JudgeOk(r) /\ JudgeLiterals(r) ELSE TRUE
 
 Init == l = 1
 Next == /\ l <= Len(Recs)
